@@ -507,7 +507,54 @@ def check_C15(tier, seed):
         extra_sessions=[("rnd", extra)])
 
 
-CHECKS = {"C15": check_C15, "C13": check_C13, "C12": check_C12, "C08": check_C08, "C01": check_C01, "C04": check_C04, "C06": check_C06}
+def check_C20(tier, seed):
+    return mc_sess_check("C20", tier, seed, "MC_C20.tla",
+        rule="for every program L of the bounded grammar and every layout transformation T (remark line inserted before / "
+             "between / after, unreachable lines appended after END, a multi-statement line split in two where no IF "
+             "scope is crossed, the statement list typed as a direct line with 0 or 3 unrelated program lines in memory) "
+             "TLC checks LayoutInvariant on the specification (responses of T(L) equal those of L up to reported line "
+             "numbers, same final store); both layouts are executed by the real interpreter and validated",
+        keep=lambda d: not d.get("oom"))
+
+
+def check_C07(tier, seed):
+    import ast as A
+    t0 = time.time()
+    st = tlc_replay_stage("C07", "MC_C07.tla", "MC_C07_%s.cfg" % tier, timeout=1800)
+    # MID$ assignment (a statement): sessions validated against the abstract machine
+    strs = ["", "A", "AB", "ABA", "é", "aé", "éa😀b", "HELLO"]
+    nums = [-1, 0, 1, 2, 3, 5, 6, 255, 256]
+    reps = ["", "x", "é😀", "wxyz"]
+    if tier == "quick":
+        nums = [-1, 0, 1, 2, 3, 6, 256]
+    sess = []
+    S = A.var("S$")
+    def num(n):
+        return A.I(n) if n >= 0 else A.un("neg", A.I(-n))
+    for s_ in strs:
+        for p_ in nums:
+            for n_ in nums + [None]:
+                for r_ in reps:
+                    if tier == "quick" and (len(sess) + seed) % 3:
+                        sess.append(None)
+                        continue
+                    sess.append(A.session("C07m-%d" % len(sess), [A.direct(
+                        A.let(S, A.Str(s_)), A.mid(S, num(p_), num(n_) if n_ is not None else None, A.Str(r_)),
+                        A.pr(S, ";", A.Str("|"), ";", A.call("LEN", S)))]))
+    sess = [x for x in sess if x]
+    st2 = validate_sessions("C07", "midassign", sess, exhaustive=True)
+    return finish("C07", tier, seed, "model_checking", [st, st2], t0,
+                  rule="TLC enumerates every function x argument combination of the grid (strings: empty, ASCII, multi-byte, "
+                       "254/255-character runs; positions and counts -1, 0, 1, 2, len, len+1, 255, 256, 32767, 2.5; codes at "
+                       "the scalar-value limits; VAL prefixes; HEX$/OCT$ boundaries; all comparisons and concatenations), "
+                       "checks the laws relating the operators on the specification, and every case is replayed in the VM "
+                       "(value, type, error code, printed text); MID$ assignment over the same grid as sessions; "
+                       "non-trivial = cases ending in an error or a non-empty / non-zero result",
+                  assumptions=["harness renderer and comparator are trusted", "error codes the manual does not fix are "
+                               "accepted as any BASIC error other than INTERNAL ERROR"])
+
+
+CHECKS = {"C07": check_C07, "C20": check_C20, "C15": check_C15, "C13": check_C13, "C12": check_C12, "C08": check_C08, "C01": check_C01, "C04": check_C04, "C06": check_C06}
 for _p in ("C09", "C10", "C11", "C17"):
     CHECKS[_p] = prog_check(_p)
 
